@@ -41,6 +41,7 @@ def evaluate(mod, case):
     from .common import Failure, HarnessError
     from .result import Result
     common.LAYOUT = case.get('_layout', 'C') if isinstance(case, dict) else 'C'
+    common.CTOR = case.get('_ctor', 'faces') if isinstance(case, dict) else 'faces'
     try:
         return mod.check(case)
     except HarnessError:
@@ -150,8 +151,8 @@ class Stats:
 def with_layout(strat):
     """every generated case additionally draws the memory layout of the arrays handed to pyfvtool"""
     from hypothesis import strategies as st
-    return st.builds(lambda c, l: dict(c, _layout=l) if isinstance(c, dict) else c, strat,
-                     st.sampled_from(['C', 'C', 'F', 'strided']))
+    return st.builds(lambda c, l, k: dict(c, _layout=l, _ctor=k) if isinstance(c, dict) else c, strat,
+                     st.sampled_from(['C', 'C', 'F', 'strided']), st.sampled_from(['faces', 'NL']))
 
 
 def _shard_generate(args):
